@@ -54,8 +54,11 @@ text=("Model: tokenizer, parser for arith.go.y's productions, the rule-action ev
     "C13": dict(
         text=("Proved (every environment, name other than @/*, word, mode, field context): the operator switch of expandParam performs exactly "
               "the action of the POSIX table for :- - := = :? ? :+ + in each parameter state, assignment to special/positional parameters is "
-              "an error, and an unused word has no influence on fields or store. Not proved (oracle + correspondence only): $@/$* field rules, "
-              "${#p}, the four removal operators (reduce to C12), nounset. Correspondence: full product operators x states x parameter kinds "
+              "an error, and an unused word has no influence on fields or store; ${p}/$p give the value, nothing for null, nothing or (nounset) an error for unset; "
+              "${#p} is the rune count of the value, 0 for null/unset, an error for unset under nounset; $@ gives one field per positional parameter and $* the same "
+              "unquoted or, in double quotes, one field joined by the first IFS character; ${p%w} ${p%%w} ${p#w} ${p##w} on a non-null parameter expand w in Pattern mode "
+              "and return the value without the shortest/longest suffix/prefix that the compiled pattern matches as a whole (C12's denotation), the whole value when none does. "
+              "Not proved (oracle + correspondence only): the table and removal operators applied to $@/$* themselves. Correspondence: full product operators x states x parameter kinds "
               "x quoting x operator words x nounset x IFS. Known finding F18 (\"$@\" with no parameters) is reported as KNOWN-FINDING."),
         note=BASE_NOTE + "Modelled, not verified: os/user lookup (oracle table probed by the harness), pattern.Match through the C12 model.",
         technique="Coq case-analysis proof of the POSIX table on the expandParam model + differential correspondence + table oracle",
